@@ -467,7 +467,7 @@ func (w *Writer) ReadFrom(src io.Reader) (n int64, err error) {
 //
 // If no Write() or ReadFrom() was made, then Flush() does nothing.
 func (w *Writer) Flush() error {
-	if (!w.dirty && w.Buffered() == 0) || w.err != nil {
+	if (!w.dirty && w.Buffered() == 0 && w.fseq == 0) || w.err != nil {
 		return w.err
 	}
 
